@@ -208,6 +208,9 @@ func (o *sfObj) readAt(b []byte, off int64) (int, error) {
 	if nd == nil || nd.kind != 'f' {
 		return 0, os.ErrNotExist
 	}
+	if off < 0 {
+		return 0, &os.PathError{Op: "read", Path: o.path, Err: syscall.EINVAL}
+	}
 	if off >= int64(len(nd.data)) {
 		return 0, io.EOF
 	}
@@ -260,7 +263,7 @@ func (o *sfObj) listAt(b []os.FileInfo, off int64) (int, error) {
 	if err := fs.record(sfCall{Method: "ListAt", Obj: o.id, Off: off, N: len(b), Filepath: o.path}); err != nil {
 		return 0, err
 	}
-	if off >= int64(len(o.names)) {
+	if off < 0 || off >= int64(len(o.names)) {
 		return 0, io.EOF
 	}
 	rest := o.names[off:]
